@@ -11,6 +11,7 @@ import (
 	"os/exec"
 	"runtime/debug"
 	"sync"
+	"sync/atomic"
 	"time"
 
 	"github.com/pion/stun/v3"
@@ -76,6 +77,13 @@ func parseBatch(o *out, inputs [][]byte) [][]int {
 	var mu sync.Mutex
 	runChunk := func(lo, hi int) {
 		for lo < hi {
+			if crashCount.Load() >= 40 {
+				// enough evidence: every further crash or hang costs a process or the watchdog delay
+				for k := lo; k < hi; k++ {
+					res[k] = []int{4}
+				}
+				return
+			}
 			cmd := exec.Command(os.Args[0], "C16child", "quick", "0", os.TempDir())
 			var in bytes.Buffer
 			for _, s := range inputs[lo:hi] {
@@ -118,6 +126,7 @@ func parseBatch(o *out, inputs [][]byte) [][]int {
 				return
 			}
 			res[lo+got] = []int{3}
+			crashCount.Add(1)
 			mu.Lock()
 			o.failFor("C16", "parseuri-crash-or-hang", "1601 "+fHex(inputs[lo+got])+" ("+reason+")")
 			mu.Unlock()
@@ -156,6 +165,8 @@ func minInt(a, b int) int {
 	return b
 }
 
+var crashCount atomic.Int32
+
 func parseViaChild(o *out, s []byte) []int { return parseBatch(o, [][]byte{s})[0] }
 
 var uriAlphabet = []byte{'a', '1', ':', '[', ']', '/', '?', '#', '%', '=', '&', '.', '-', '+', '@', ' ', 0x01, 0xC3, ';', 'Z'}
@@ -164,6 +175,10 @@ var uriPrefixes = []string{"stun:", "stuns:", "turn:", "turns:", ""}
 func emitParsed(o *out, inputs [][]byte, kind string) {
 	results := parseBatch(o, inputs)
 	for i, s := range inputs {
+		if results[i][0] == 4 {
+			o.count("skipped-after-40-crashes")
+			continue
+		}
 		o.emit(1601, []string{fHex(s)}, results[i], true)
 		o.count("kind:" + kind)
 		o.count(fmt.Sprintf("result:%d", results[i][0]))
@@ -507,6 +522,10 @@ func runC17(o *out, thorough bool, r *rng, _ []string) map[string]interface{} {
 		preParsed[string(inputs[i])] = res
 	}
 	for _, s := range inputs {
+		if r0 := preParsed[string(s)]; len(r0) > 0 && r0[0] == 4 {
+			o.count("skipped-after-40-crashes")
+			continue
+		}
 		o.run(1701, []string{fHex(s)}, true)
 	}
 	o.countN("uris", len(inputs))
